@@ -6,7 +6,7 @@ What is *not* a theorem (floating-point evaluation of the trigonometric coordina
 LORCoordinates.inl in floating point, detector coordinates of blocks/generic scanners and their `get_bin`,
 `overlap_interpolate` / arc correction of rows) is covered by the correspondence run and the oracle of checks/c12.py only.
 
-The model describes the code after the fixes C12-1 … C12-8 (build/fixes); for C12-6 (`get_sino_coords` direction) and C12-7
+The model describes the code after the fixes C12-1 … C12-8 (docs/fixes); for C12-6 (`get_sino_coords` direction) and C12-7
 (`get_bin` view wrap) the model functions take a flag, so that the code before the fix has a witness of its failure
 (`…_before_fix_witness`) and the driver can follow whichever code the harness finds.  Clauses of the property that the code does not
 satisfy (known findings, not repaired) have a negative witness `…_fails` and the positive theorem is named `…_partial`:
@@ -26,6 +26,7 @@ import StirVerif.C12.ProofsObliq
 import StirVerif.C12.ProofsRt
 import StirVerif.C12.ProofsLor
 import StirVerif.C12.ProofsVia
+import StirVerif.C12.ProofsReuse
 
 namespace StirVerif.C12
 open Real
@@ -517,5 +518,49 @@ example : ∀ l, exGeomTof.lorOf ⟨1, 0, 2, -3, -2⟩ = some l →
   fun l hl => C12_arccorr_roundtrip_every_representation exGeomTof C12_ex_tof_wellformed ⟨1, 0, 2, -3, -2⟩ ⟨2, 4, 5⟩
     { hseg := by decide, hv := by decide, ha := by decide, ht := by decide,
       htof := by show (-2 : Int) ≤ -2 ∧ (-2 : Int) ≤ 2; decide } l hl .cylrev (-1/5) (by norm_num) (by norm_num)
+
+/-! ## one `ArcCorrection` object set up more than once -/
+
+/-- "arc correction maps uniform data to uniform data and preserves the integral over the tangential coordinate" — for whatever
+    object does the arc correction, also one that was set up before for other scanners: after ANY history of `set_up` calls (any
+    geometries, any of the overloads — all end in the three-argument `set_up`) followed by `set_up a`, the object is the one a fresh
+    `ArcCorrection` set up with `a` would be, and `do_arc_correction` gives the same row for every input.  (`ArcCorrState.setUp`
+    transcribes that `ArcCorrection::set_up` assigns every cached member; the correspondence run checks exactly this on re-used C++
+    objects, whose rows the driver answers from the state it keeps.  The theorems `C12_arccorr_boxes` / `C12_arccorr_uniform_sampling`
+    thereby apply to the cached boxes of a re-used object too.) -/
+theorem C12_arccorrection_reused_object_eq_fresh (st : ArcCorrState) (h : List ArcSetUpArgs) (a : ArcSetUpArgs) (row : List Rat) :
+    st.history (h ++ [a]) = ArcCorrState.fresh.setUp a ∧
+    (st.history (h ++ [a])).correctRow row = (ArcCorrState.fresh.setUp a).correctRow row :=
+  ⟨history_snoc_eq_fresh st h a, by rw [history_snoc_eq_fresh st h a]⟩
+
+/-- what is cached after any history is what the LAST `set_up` prescribes: the edges `R sin((tp ∓ 1/2) Δφ)` of the last input
+    geometry and their differences, the last bin size, and arc-corrected boxes `[(tp - 1/2)·bin size, (tp + 1/2)·bin size]` for every
+    `tp` of the last arc-corrected range ("arc-corrected data have uniform tangential sampling") — nothing of earlier geometries. -/
+theorem C12_arccorrection_cached_boxes_are_the_last (st : ArcCorrState) (h : List ArcSetUpArgs) (a : ArcSetUpArgs) (tp : Int)
+    (h1 : (tangRangeOfNum a.numOut).1 ≤ tp) (h2 : tp ≤ (tangRangeOfNum a.numOut).2) :
+    (st.history (h ++ [a])).noarcCoords = a.edges ∧
+    (st.history (h ++ [a])).noarcSizes.length = a.edges.length - 1 ∧
+    (∀ k x y, a.edges[k]? = some x → a.edges[k + 1]? = some y → (st.history (h ++ [a])).noarcSizes[k]? = some (y - x)) ∧
+    (st.history (h ++ [a])).sampling = a.binSize ∧
+    ((st.history (h ++ [a])).inMin, (st.history (h ++ [a])).inMax) = (a.inMin, a.inMax) ∧
+    ((st.history (h ++ [a])).outMin, (st.history (h ++ [a])).outMax) = tangRangeOfNum a.numOut ∧
+    (st.history (h ++ [a])).arcCoords[(tp - (st.history (h ++ [a])).outMin).toNat]? = some (((tp : Rat) - 1/2) * a.binSize) ∧
+    (st.history (h ++ [a])).arcCoords[(tp - (st.history (h ++ [a])).outMin).toNat + 1]? = some (((tp : Rat) + 1/2) * a.binSize) := by
+  rw [history_snoc_eq_fresh st h a]
+  refine ⟨rfl, adjacentDiffs_length _, fun k x y hx hy => adjacentDiffs_get _ k x y hx hy, rfl, rfl, rfl, ?_, ?_⟩
+  · exact (arcCorrCoords_box _ _ a.binSize tp h1 h2).1
+  · exact (arcCorrCoords_box _ _ a.binSize tp h1 h2).2
+
+/-- two input geometries with the SAME tangential range (-1 … 1) and other edges (another ring radius), same arc-corrected size -/
+def exSetUpA : ArcSetUpArgs := ⟨-1, 1, [-3, -1, 1, 3], 5, 1⟩
+def exSetUpB : ArcSetUpArgs := ⟨-1, 1, [-6, -2, 2, 6], 5, 1⟩
+
+/-- non-vacuity: the two fresh objects differ (so the statement is not about a constant), the object re-used A → B → A is the fresh
+    A object, and its cached input boxes are A's (widths 2, 2, 2), not B's (4, 4, 4) -/
+example : ArcCorrState.fresh.setUp exSetUpA ≠ ArcCorrState.fresh.setUp exSetUpB ∧
+    ArcCorrState.fresh.history [exSetUpA, exSetUpB, exSetUpA] = ArcCorrState.fresh.setUp exSetUpA ∧
+    (ArcCorrState.fresh.history [exSetUpA, exSetUpB, exSetUpA]).noarcSizes = [2, 2, 2] ∧
+    (ArcCorrState.fresh.history [exSetUpA, exSetUpB]).noarcSizes = [4, 4, 4] ∧
+    tangRangeOfNum exSetUpA.numOut = (-2, 2) := by decide +kernel
 
 end StirVerif.C12
